@@ -318,7 +318,19 @@ int main(int argc, char **argv)
 				if (op == 5 || !(flags & 2)) { snprintf(name, sizeof name, "out_%u", i); fn = name; }
 				cbn = 0; cbbad = 0; cap_hdr = cur;
 				ENTER(); res = lha_reader_extract(reader, fn, progress_cb, NULL); LEAVE();
-				fprintf(out, "EXTRACT result=%d named=%d ncb=%u\n", res, fn != NULL, cbn);
+				fprintf(out, "EXTRACT result=%d named=%d ncb=%u", res, fn != NULL, cbn);
+				if (fn != NULL) {
+					/* what the extraction produced: length and CRC-16 of the named output if it is a regular file */
+					struct stat sb; long flen = -1; unsigned fcrc = 0;
+					if (lstat(fn, &sb) == 0 && S_ISREG(sb.st_mode)) {
+						FILE *f = fopen(fn, "rb"); uint8_t fb[4096]; size_t k; uint16_t c = 0;
+						flen = 0;
+						if (f) { while ((k = fread(fb, 1, sizeof fb, f)) > 0) { c = crc_own(c, fb, k); flen += (long) k; } fclose(f); }
+						fcrc = c;
+					}
+					fprintf(out, " flen=%ld fcrc=%u", flen, fcrc);
+				}
+				fprintf(out, "\n");
 				break; }
 			case 8: {
 				unsigned long guard = 0;
